@@ -30,47 +30,50 @@ Definition PREC_PREFIX : Z := 3.
 Definition cur (ts : list etok) : etok := match ts with t :: _ => t | [] => E_EOF end.
 Definition adv (ts : list etok) : list etok := match ts with _ :: r => r | [] => [] end.
 
+(* the `while infix_tkn.type in PREC_MAP and precedence < PREC_MAP[...]` loop; `rec` is match_expr *)
+Definition infix_loop (rec : Z -> list etok -> pres) (prec : Z) : nat -> expr -> list etok -> pres :=
+  fix loop (n : nat) (lhs : expr) (ts : list etok) : pres :=
+    match n with
+    | O => PFuel
+    | S m =>
+        match cur ts with
+        | E_OP o =>
+            if prec <? prec_of o then
+              match rec (prec_of o) (adv ts) with
+              | POk rhs rest => loop m (EBin o lhs rhs) rest
+              | other => other
+              end
+            else POk lhs ts
+        | _ => POk lhs ts
+        end
+    end.
+
 Fixpoint match_expr (fuel : nat) (prec : Z) (ts : list etok) : pres :=
   match fuel with
   | O => PFuel
   | S f =>
-      let infix_loop :=
-        fix loop (n : nat) (lhs : expr) (ts : list etok) : pres :=
-          match n with
-          | O => PFuel
-          | S m =>
-              match cur ts with
-              | E_OP o =>
-                  if prec <? prec_of o then
-                    match match_expr f (prec_of o) (adv ts) with
-                    | POk rhs rest => loop m (EBin o lhs rhs) rest
-                    | other => other
-                    end
-                  else POk lhs ts
-              | _ => POk lhs ts
-              end
-          end in
+      let continue_with := infix_loop (match_expr f) prec f in
       match cur ts with
       | E_AT =>
           match match_expr f PREC_PREFIX (adv ts) with
-          | POk a rest => infix_loop f (EMem a) rest
+          | POk a rest => continue_with (EMem a) rest
           | other => other
           end
-      | E_INT (Some v) => infix_loop f (EInt v) (adv ts)
+      | E_INT (Some v) => continue_with (EInt v) (adv ts)
       | E_INT None => PSyntaxError
       | E_OP OpSub =>
           match match_expr f PREC_PREFIX (adv ts) with
-          | POk a rest => infix_loop f (ENeg a) rest
+          | POk a rest => continue_with (ENeg a) rest
           | other => other
           end
-      | E_REG (Some r) => infix_loop f (EReg r) (adv ts)
+      | E_REG (Some r) => continue_with (EReg r) (adv ts)
       | E_REG None => PSyntaxError
-      | E_SYM s => infix_loop f (ESym s) (adv ts)
+      | E_SYM s => continue_with (ESym s) (adv ts)
       | E_LP =>
           match match_expr f 0 (adv ts) with
           | POk e rest =>
               match cur rest with
-              | E_RP => infix_loop f e (adv rest)
+              | E_RP => continue_with e (adv rest)
               | _ => PSyntaxError
               end
           | other => other
